@@ -1,5 +1,6 @@
 import LunarVerif.Base.Proto
 import LunarVerif.Spec.C20
+import LunarVerif.Spec.C20Wiring
 /-! Driver for C20: `lvdriver_c20 run` (model outputs) / `lvdriver_c20 judge` (Spec on impl outputs). -/
 open LunarVerif LunarVerif.Proto LunarVerif.C20
 
@@ -73,8 +74,245 @@ def judgeFinish (s : JudgeSt) : String :=
       | some e => s!"fail - spec-violated-at t={e.t} {fmtEvent e}"
       | none => "fail - spec-violated"
 
+
+/-! ## Level 2: the wired fail-safe (`Model/C20Wiring.lean`, `Spec/C20Wiring.lean`) -/
+
+structure WCfgLine where
+  env : EnvCfg
+  thr : Thr
+  t0  : Nat
+  p0  : Option Pol
+
+def parsePol (s : String) : Option Pol :=
+  match s.splitOn "." with
+  | [k, g, e, r] =>
+    let bit (x : String) : Option Bool := if x == "1" then some true else if x == "0" then some false else none
+    match (if k.all Char.isDigit then k.toNat? else none), bit g, bit e, bit r with
+    | some k, some g, some e, some r => if k == 0 then none else some ⟨k, g, e, r⟩   -- label 0 = the empty policies
+    | _, _, _, _ => none
+  | _ => none
+
+def parseWCfg (ws : List String) : Option WCfgLine := do
+  let i ← kv ws "interval"
+  let n ← kv ws "n"
+  let p ← kv ws "period"
+  let c ← kv ws "cooldown"
+  let r ← kv ws "rate"
+  let m ← kv ws "max"
+  let t0 ← kvNat ws "t0"
+  let a ← kv ws "acc"
+  let p0 ← if a == "none" then some none else (parsePol a).map some
+  pure ⟨⟨pctDec i, pctDec n, pctDec p, pctDec c⟩, ⟨pctDec r, pctDec m⟩, t0, p0⟩
+
+def fieldOk (s : String) : Bool := !s.toList.any fun c => c == ',' || c == '"' || c == '\r' || c == '\n'
+
+def parseRowW (s : String) : Option Row :=
+  match s.splitOn "|" with
+  | [px, sv, rate, last, rg] =>
+    let vs := [px, sv, rate, last].map pctDec
+    if !vs.all fieldOk then none else
+    match vs, (if rg == "0" then some 0 else if rg == "1" then some 1 else if rg == "2" then some 2 else none) with
+    | [px, sv, rate, last], some rg => some ⟨px, sv, rate, last, rg⟩
+    | _, _ => none
+  | _ => none
+
+def parseRowsW (s : String) : Option (List Row) :=
+  if s.isEmpty then some [] else (s.splitOn ";").mapM parseRowW
+
+def parseHdr (s : String) : Option Hdr :=
+  match s.toList with
+  | [a, b, c, d] =>
+    if [a, b, c, d].all (fun x => x == '0' || x == '1') then some ⟨a == '1', b == '1', c == '1', d == '1'⟩ else none
+  | _ => none
+
+def parseHttp (ws : List String) : Option Http := do
+  let h ← kv ws "http"
+  if h == "err" then pure .transportErr
+  else if h == "bodyerr" then pure .bodyErr
+  else
+    let code ← (if h.all Char.isDigit then h.toNat? else none)
+    if code < 100 || code > 599 then none
+    else match kv ws "junk" with
+      | some j => if ["empty", "html", "quote", "nohdr"].contains j then pure (.status code .junk) else none
+      | none =>
+        let hdr ← (kv ws "hdr").bind parseHdr
+        let lay ← kv ws "lay"
+        if !["real", "min", "rev"].contains lay then none
+        else
+          let rows ← parseRowsW ((kv ws "rows").getD "")
+          pure (.status code (.csv hdr rows))
+
+def parseOpW (ws : List String) : Option Op :=
+  match ws with
+  | "obs" :: rest => do
+    let lat ← kvNat rest "lat"
+    let h ← parseHttp rest
+    pure (.obs lat h)
+  | "thr" :: rest => do
+    let r ← kv rest "rate"
+    let m ← kv rest "max"
+    pure (.thr ⟨pctDec r, pctDec m⟩)
+  | ["write", "bad"] => some (.write .bad)
+  | ["write", "none"] => some (.write .none)
+  | ["write", p] => (parsePol p).map fun p => .write (.good p)
+  | ["reload"] => some .reload
+  | ["revert", "free"] => some (.revert true)
+  | ["revert", "last"] => some (.revert false)
+  | ["admin", "ok"] => some (.admin false)
+  | ["admin", "fail"] => some (.admin true)
+  | _ => none
+
+def b2n (b : Bool) : Nat := if b then 1 else 0
+
+def fmtPol (p : Pol) : String := s!"ver={p.k} gd={b2n p.g} ed={b2n p.e} er={b2n p.r}"
+
+def fmtCur : Option Pol → String
+  | some p => fmtPol p
+  | none => "ver=none"
+
+def fmtAtoiErr : AtoiErr → String
+  | .syntax => "syntax"
+  | .range => "range"
+
+def fmtCtor : Except CtorErr RawCfg → Option Pol → String
+  | .ok r, cur => s!"ok n={r.n} period={r.period} interval={r.interval} cooldown={r.cooldown} {fmtCur cur}"
+  | .error e, _ => s!"err:{fmtAtoiErr e.kind} num={pctEnc e.num}"
+
+def fmtReact : Option Bool → String
+  | none => "none"
+  | some true => "healthy"
+  | some false => "unhealthy"
+
+def fmtAns : Ans → String
+  | .obs e fetched cur => s!"t={e.t} healthy={b2n e.obs} fetched={b2n fetched} r={fmtReact e.react} rt={e.rt} {fmtCur cur}"
+  | .done => "ok"
+  | .upd ok cur => (if ok then "ok " else "err ") ++ fmtPol cur
+  | .noAcc => "no-accessor"
+
+/-- State of a level-2 case in `run` mode. -/
+structure WRun where
+  bad : Bool := false            -- the wcfg line was malformed
+  cfg : Option Cfg := none       -- none: construction failed, no watcher
+  sys : Sys := Sys.init 0 ⟨"", ""⟩ none
+
+def wRunStart (ws : List String) : WRun × String :=
+  match parseWCfg ws with
+  | none => ({ bad := true }, "bad-op")
+  | some l =>
+    let c := construct l.env
+    let sys := Sys.init (l.t0 + (match c with | .ok r => r.initialWait | .error _ => 0)) l.thr l.p0
+    ({ cfg := (match c with | .ok r => some r.toCfg | .error _ => none), sys := sys }, fmtCtor c l.p0)
+
+/-- The defaults shipped in proxy/Dockerfile, as the model states them (`dockerEnv`, `dockerThr`). -/
+def fmtDockerEnv : String :=
+  s!"interval={pctEnc dockerEnv.interval} n={pctEnc dockerEnv.n} period={pctEnc dockerEnv.period} " ++
+  s!"cooldown={pctEnc dockerEnv.cooldown} rate={pctEnc dockerThr.rate} max={pctEnc dockerThr.max}"
+
+def wRunStep (s : WRun) (line : String) : WRun × String :=
+  if s.bad then (s, "bad-op") else
+  if words line == ["dockerenv"] then (s, fmtDockerEnv) else
+  match parseOpW (words line) with
+  | none => (s, "bad-op")
+  | some op =>
+    match s.cfg, op with
+    | none, .obs _ _ => (s, "no-watcher")
+    | cfg, op =>
+      let (sys', a) := sysStep (cfg.getD ⟨0, 0, 0, 0⟩) s.sys op
+      ({ s with sys := sys' }, fmtAns a)
+
+/-- State of a level-2 case in `judge` mode. -/
+structure WJudge where
+  line : Option WCfgLine := none
+  ctor : Option String := none       -- the implementation's answer to wcfg
+  hist : Hist := []                  -- most recent first
+  bad : Option String := none
+
+def parseCur (ws : List String) : Option (Option Pol) :=
+  match kv ws "ver" with
+  | some "none" => some none
+  | some k =>
+    match (if k.all Char.isDigit then k.toNat? else none), kvNat ws "gd", kvNat ws "ed", kvNat ws "er" with
+    | some k, some g, some e, some r => some (some ⟨k, g != 0, e != 0, r != 0⟩)
+    | _, _, _, _ => none
+  | none => none
+
+/-- Only what the property talks about is required of an answer: instant, observed health, reaction
+    and its instant of a health check.  Everything else (fetched flag, policies in force, answers of
+    reloads / reverts) is left to the correspondence diff. -/
+def parseAnsW (op : Op) (out : String) : Option Ans :=
+  let ows := words out
+  match op with
+  | .obs _ _ =>
+    match kvNat ows "t", kvNat ows "healthy", kv ows "r", kvNat ows "rt" with
+    | some t, some hv, some r, some rt =>
+      let react := if r == "none" then some none else if r == "healthy" then some (some true)
+                   else if r == "unhealthy" then some (some false) else none
+      react.map fun re => .obs ⟨t, hv != 0, re, rt⟩ ((kvNat ows "fetched").getD 0 != 0) ((parseCur ows).getD none)
+    | _, _, _, _ => none
+  | _ => some .done
+
+def wJudgeStep (s : WJudge) (op out : String) : WJudge :=
+  match s.line with
+  | none => s
+  | some _ =>
+    match parseOpW (words op) with
+    | none => s                                   -- malformed line: the diff compares the answers
+    | some o =>
+      if out == "no-watcher" then s
+      else
+        match parseAnsW o out with
+        | some a => { s with hist := (o, a) :: s.hist }
+        | none => { s with bad := some ("unparsable-output:" ++ pctEnc out) }
+
+/-- The judge evaluates exactly property C20 (`wholds`): when the REAL watcher fired its reactions for the
+    health the REAL predicate had to observe.  The constructed numbers, the `fetched` flag and the policies
+    in force are compared by the correspondence diff only. -/
+def wJudgeFinish (s : WJudge) : String :=
+  match s.bad, s.line with
+  | some b, _ => s!"fail - {b}"
+  | none, some l =>
+    match construct l.env with
+    | .error _ => "ok"                    -- no configuration: the property states nothing
+    | .ok raw =>
+      let h := s.hist.reverse
+      if wholds raw l.thr h then "ok"
+      else if !predsOk l.thr h then "fail - observed-health-not-what-the-stats-and-thresholds-state"
+      else "fail - reactions-not-as-the-property-states (alternation/stability/cool-down)"
+  | none, none => "ok"
+
+/-! ## Dispatch: a case whose FIRST op is `wcfg` is a level-2 case -/
+
+structure RunSt2 where
+  first : Bool := true
+  l1 : RunSt := {}
+  l2 : Option WRun := none
+
+def runStep2 (s : RunSt2) (line : String) : RunSt2 × String :=
+  match words line, s.first, s.l2 with
+  | ["case", id], _, _ => ({}, s!"case {id}")
+  | "wcfg" :: ws, true, _ => let (w, out) := wRunStart ws; ({ first := false, l2 := some w }, out)
+  | _, _, some w => let (w', out) := wRunStep w line; ({ s with first := false, l2 := some w' }, out)
+  | _, _, none => let (l1, out) := runStep s.l1 line; ({ s with first := false, l1 := l1 }, out)
+
+structure JudgeSt2 where
+  first : Bool := true
+  l1 : JudgeSt := {}
+  l2 : Option WJudge := none
+
+def judgeStep2 (s : JudgeSt2) (op out : String) : JudgeSt2 :=
+  match words op, s.first, s.l2 with
+  | "wcfg" :: ws, true, _ =>
+    { first := false, l2 := some { line := parseWCfg ws, ctor := some out } }
+  | _, _, some w => { s with first := false, l2 := some (wJudgeStep w op out) }
+  | _, _, none => { s with first := false, l1 := judgeStep s.l1 op out }
+
+def judgeFinish2 (s : JudgeSt2) : String :=
+  match s.l2 with
+  | some w => wJudgeFinish w
+  | none => judgeFinish s.l1
+
 def main (args : List String) : IO Unit :=
   match args with
-  | ["run"] => runLoop runStep {}
-  | ["judge"] => judgeLoop ({} : JudgeSt) judgeStep judgeFinish
+  | ["run"] => runLoop runStep2 {}
+  | ["judge"] => judgeLoop ({} : JudgeSt2) judgeStep2 judgeFinish2
   | _ => IO.eprintln "usage: lvdriver_c20 run|judge"
